@@ -1000,6 +1000,8 @@ class Interp:
         if isinstance(a, SRec) or isinstance(b, SRec):
             if a is b:
                 return True
+            if not (isinstance(a, SRec) and isinstance(b, SRec)):
+                return False          # a dataclass instance never equals a value of another type
             raise Unsupported("== on records")
         if not is_sym(a) and not is_sym(b):
             return a == b
